@@ -22,7 +22,9 @@ REQUIRED_THEOREMS = ["Clikit.Props.C04." + n for n in (
     "run_shape", "app_runs_selected_handler", "app_at_most_one_handler", "app_status_range",
     # bridge to the event dispatcher model of C12 (Model/RunListeners.lean, tied by c04.run_regs)
     "listeners_called_in_priority_order", "registration_order_irrelevant_across_priorities",
-    "registration_swap_across_priorities", "other_events_irrelevant", "handled_does_not_stop")]
+    "registration_swap_across_priorities", "other_events_irrelevant", "handled_does_not_stop",
+    # how the handler is wired to the command (Model/Wiring.lean, tied by the `wiring` field of c04.run / c04.run_regs)
+    "wired_handler_runs", "wired_handler_once", "wired_unusable_contained")]
 TECHNIQUE = ("Lean 4 theorems on a model of ConsoleApplication.run/Command.handle whose status normalisation is regenerated "
              "from Command.handle on every run + exhaustive outcome x listener x verbosity table against the real run()")
 LEVEL_TEXT = ("Proved in Lean for ALL handler results, exceptions and pre-handle listener lists: the status is 0 iff the value "
@@ -56,7 +58,17 @@ LEVEL_TEXT = ("Proved in Lean for ALL handler results, exceptions and pre-handle
               "command handled without stopping propagation does not keep later listeners from running, the LAST status "
               "code set wins, and the handler is not invoked (handled_does_not_stop). Tied to the real run by c04.run_regs: "
               "shuffled registration orders with explicit, also equal and non-positive, priorities and registrations for "
-              "other events on the real configuration; status, report, handler calls and the listener call log are compared.")
+              "other events on the real configuration; status, report, handler calls and the listener call log are compared. "
+              "WIRING OF THE HANDLER (Model/Wiring.lean: Config.handler - nothing stored / a callable that is called without "
+              "arguments to build the handler / the handler itself - and the getattr of the configured method name): proved "
+              "that a handler instance and every lazy factory that builds it give exactly the run of the run model for the "
+              "handler's outcome (wired_handler_runs); the handler is invoked exactly once iff the line resolved, no listener "
+              "took over and the lookup reaches an object with the handler method (wired_handler_once); a command without a "
+              "usable handler (none set, failing factory, no such method) ends in status 1 with a report and no invocation "
+              "(wired_unusable_contained). Tied to the real run by cases that wire the same handler behaviour as an instance, "
+              "a lambda / function / bound-method / partial / callable-object factory, the handler CLASS itself as the "
+              "factory, the library's CallbackHandler, a plain function reached through `__call__`, and under custom handler "
+              "method names (also next to a decoy `handle`).")
 LEVEL_NOTE = ("Trusted: Lean kernel + standard axioms; the hand-written run model; tools/genparts/c04.py; harness (abstraction "
               "of Python values to truthiness/int()). Not modelled: BaseExceptions other than KeyboardInterrupt (SystemExit "
               "raised by a handler propagates by design), OS signal delivery, the trace renderer itself (C20).")
@@ -67,13 +79,22 @@ RULE = ("product of 25 handler outcomes (return values None/False/0/-3/300/True/
         "lists (two and three listeners that handle with different codes, stop or fail in the middle) registered in "
         "every/random order with priority patterns all-equal / descending / ascending / pairs of ties / random from "
         "{-2,0,3,3,7}, interleaved with registrations for an event that is never dispatched (any behaviour, top priority) and "
-        "for PRE_RESOLVE (pass/stop), on the bare and the default configuration; non-trivial = the outcome is not "
-        "'return None' or the case has a registration history; distinct = the case")
+        "for PRE_RESOLVE (pass/stop), on the bare and the default configuration; plus the WIRINGS of the handler: 34 ways "
+        "to configure it (instance, lambda, function, the handler class itself - method inherited or its own -, partial, "
+        "callable object, bound method, CallbackHandler direct and lazy, plain function behind `__call__`; default / "
+        "explicitly set / custom handler method names, with a decoy `handle`; 5 unusable ones: nothing set, no such method, "
+        "factory raises, factory builds None) x 8 outcomes (quick; all 40 x 2 verbosities thorough) + random wiring x outcome "
+        "x listeners x line; non-trivial = the outcome is not 'return None' or the case has a registration history or a "
+        "wiring; distinct = the case")
 TRUSTED_BASE = [
     "Lean 4.33 kernel; axioms within propext, Classical.choice, Quot.sound (audited per theorem on every run)",
     "tools/genparts/c04.py: translation of the last statement of Command.handle (the clamp) and check of the guard before it",
     "lean/Clikit/Model/Run.lean: hand-written model of run/handle/_do_handle (modelled, not verified; tied by the correspondence)",
-    "harness/props/c04.py, harness/c04_handlers.py: outcome table, listeners, abstraction of Python values",
+    "harness/props/c04.py, harness/c04_handlers.py: outcome table, listeners, abstraction of Python values; the wirings of "
+    "the handler and their abstraction for the model (can the stored object be called; does the object reached have the "
+    "configured method)",
+    "lean/Clikit/Model/Wiring.lean: hand-written model of Config.handler and of the method lookup in Command._do_handle "
+    "(modelled, not verified; tied by the wiring cases: status, report, handler calls)",
     "lean/Clikit/Model/RunListeners.lean: the encoding of a registration history for the dispatcher model of C12 (identity of a "
     "callable = position in the history; the walk ends at a listener that stops propagation or raises) and the reading back of "
     "the dispatcher's order (modelled, not verified; tied by c04.run_regs on every case: status, handler calls, listener call "
@@ -89,6 +110,9 @@ ASSUMPTIONS = [
     "case: the model runs with a renderer that never fails against the REAL renderer, so a failure shows up as an escaped "
     "exception = a model/implementation disagreement and an oracle violation",
     "KeyboardInterrupt needs no report; BaseExceptions other than KeyboardInterrupt are outside the quantifier",
+    "wiring: a callable given to set_handler is a factory (the library's rule), so a handler that is reached by CALLING it is "
+    "given as `lambda: fn` with the method name `__call__`; factories take no arguments and build a fresh handler per run; "
+    "'the handler is invoked' means the configured handler method of the object the wiring reaches",
     "the app_* theorems take case conditions on their own inputs only (no help switch, `resolve` selects (path, args), the "
     "version option is not set, the path is not [help]); in the composed model rendering a help page or the version line "
     "succeeds (C13 help_total) and create_io does not raise",
@@ -120,6 +144,23 @@ VERBOSITIES = [0, 1, 2, 4]
 ENCODINGS = [["ascii", "ascii"], ["utf-8", "ascii"], ["ascii", "utf-8"], ["latin-1", "utf-8"], ["utf-8", "utf-8"],
              [None, None]]       # None: a text stream without an encoding of its own (io.StringIO)
 LINES = [["cmd", "x"], ["nope"], ["cmd", "--unknown"], ["cmd", "x", "y", "z"]]
+
+# ---- how the handler is WIRED to the command (Config.set_handler / set_handler_method).  A case without "wiring" gives a
+# handler instance and leaves the method name alone (the first entry).
+LAZY = ("lambda", "function", "class", "class_own", "partial", "callable_obj", "bound_method", "callback_lazy",
+        "function_handler")                                   # a callable that BUILDS the handler when it is needed
+DIRECT = ("instance", "callback")                             # the handler object itself
+MISCONFIGURED = ("unset", "missing_method", "factory_raises", "factory_none")   # no handler can be invoked at all
+WIRINGS = ([{"how": h} for h in DIRECT + LAZY]
+           + [{"how": h, "method": "handle"} for h in ("instance", "class", "lambda")]        # the default name, set explicitly
+           + [{"how": h, "method": m} for h in ("instance", "lambda", "class", "class_own", "callable_obj", "partial")
+              for m in ("execute", "run_command")]
+           + [{"how": h, "method": "execute", "decoy": True} for h in ("instance", "class", "function")]
+           + [{"how": h} for h in MISCONFIGURED] + [{"how": "missing_method", "method": "execute"}])
+WIRING_OUTCOMES = [{"ret": {"kind": "none"}}, {"ret": {"kind": "int", "v": 0}}, {"ret": {"kind": "int", "v": 300}},
+                   {"ret": {"kind": "str", "v": "12"}}, {"ret": {"kind": "int", "v": 7}},
+                   {"raise": {"type": "RuntimeError"}}, {"raise": {"type": "KeyboardInterrupt"}},
+                   {"raise": {"type": "CannotParse"}}]
 
 
 # ---- registration histories (bridge to the dispatcher, C12): listener lists whose ORDER is observable
@@ -196,6 +237,28 @@ def _reg_cases(tier, rng):
         yield c
 
 
+def _wiring_cases(tier, rng):
+    k = 0
+    outs = WIRING_OUTCOMES if tier == "quick" else OUTCOMES
+    for w in WIRINGS:
+        for out in outs:
+            for v in ((0,) if tier == "quick" else (0, 4)):
+                k += 1
+                c = {"outcome": out, "listeners": [], "verbosity": 4 if (tier == "quick" and k % 7 == 0) else v, "ansi": False,
+                     "tokens": LINES[0], "wiring": w}
+                if k % 3 == 0:
+                    c["default_cfg"] = True
+                yield c
+    # with listeners (a handled event never reaches the handler, however it is wired) and lines that do not resolve
+    for _ in range(120 if tier == "quick" else 1500):
+        c = {"outcome": rng.choice(OUTCOMES), "listeners": rng.choice(LISTENERS), "verbosity": rng.choice(VERBOSITIES),
+             "ansi": rng.random() < 0.2, "tokens": LINES[0] if rng.random() < 0.85 else rng.choice(LINES),
+             "wiring": rng.choice(WIRINGS)}
+        if rng.random() < 0.3:
+            c["default_cfg"] = True
+        yield c
+
+
 def _regs_of(case):
     """the registration history of a case: (listener index, priority, event name) in registration order.  Cases without
     an explicit history register their listeners for PRE_HANDLE in list order with priorities 10, 9, 8, ..."""
@@ -240,6 +303,11 @@ def generate(tier, rng):
     # negative) priorities, and with registrations for other events in between
     for c in _reg_cases(tier, rng):
         yield c
+    # ---- the ways a handler can be wired to the command: instance, lazy factories (function, the handler class itself,
+    # partial, callable object, bound method), the library's CallbackHandler, a plain function behind `__call__`, custom
+    # handler method names - every one of them must end in ONE invocation of the configured method with the parsed args
+    for c in _wiring_cases(tier, rng):
+        yield c
 
 
 def exhaustive(tier):
@@ -265,7 +333,7 @@ def _app(case, io):
     cfg.set_io_factory(lambda app, args, i, o, e: io)
     c = cfg.create_command("cmd")
     c.add_argument("a", Argument.OPTIONAL)
-    c.set_handler(H.Handler(case["outcome"]))
+    _wire(c, case)
     if "regs" in case:
         for r in case["regs"]:                                                 # explicit history: any order, any event
             cfg.add_event_listener(r.get("event", PRE_HANDLE), _listener(case["listeners"][r["l"]], r["l"]), r["prio"])
@@ -275,6 +343,60 @@ def _app(case, io):
         cfg.add_event_listener(PRE_HANDLE, _listener(l, 10 - prio), prio)      # index = position in the case's list
         prio -= 1
     return ConsoleApplication(cfg)
+
+
+class _CmdName(object):
+    name = "cmd"
+
+
+def _wire(c, case):
+    """configure the handler of the command as the case's wiring says (public setters of the command config only)"""
+    import functools
+    w = case.get("wiring")
+    out = case["outcome"]
+    if w is None:
+        c.set_handler(H.Handler(out))
+        return
+    how, method = w["how"], w.get("method")
+    cls = H.handler_type(out, method or "handle", decoy=bool(w.get("decoy")), base_defines=(how != "class_own"))
+    if how == "instance":
+        c.set_handler(cls())
+    elif how == "lambda":
+        c.set_handler(lambda: cls())
+    elif how == "function":
+        def make_handler():
+            return cls()
+        c.set_handler(make_handler)
+    elif how in ("class", "class_own"):
+        c.set_handler(cls)                                  # the class is the factory
+    elif how == "partial":
+        c.set_handler(functools.partial(H.Handler, out) if method is None else functools.partial(cls))
+    elif how == "callable_obj":
+        c.set_handler(H.Factory(cls))
+    elif how == "bound_method":
+        c.set_handler(H.Factory(cls).build)
+    elif how in ("callback", "callback_lazy"):
+        from clikit.handler.callback_handler import CallbackHandler
+
+        def callback(args, io):
+            return H._act(out, args, io, _CmdName)
+        c.set_handler(CallbackHandler(callback) if how == "callback" else (lambda: CallbackHandler(callback)))
+    elif how == "function_handler":
+        fn = H.function_handler(out)
+        c.set_handler(lambda: fn)
+        method = "__call__"
+    elif how == "unset":
+        pass
+    elif how == "missing_method":
+        c.set_handler(H.handler_type(out, "something_else")())
+    elif how == "factory_raises":
+        c.set_handler(H.Factory(cls, fail={"type": "RuntimeError"}))
+    elif how == "factory_none":
+        c.set_handler(H.Factory(cls, nothing=True))
+    else:
+        raise AssertionError(how)
+    if method is not None:
+        c.set_handler_method(method)
 
 
 LISTENER_CALLS = []
@@ -320,6 +442,8 @@ def run_impl(case):
         io = BufferedIO(formatter=fmt)
     io.set_verbosity(case["verbosity"])
     del H.CALLS[:]
+    del H.WRONG_CALLS[:]
+    del H.BUILT[:]
     del LISTENER_CALLS[:]
     del OTHER_CALLS[:]
     app = _app(case, io)
@@ -336,6 +460,7 @@ def run_impl(case):
             "reported": bool(out.strip()), "calls": len(H.CALLS), "call_args": [c["arguments"] for c in H.CALLS],
             "status_type": type(status).__name__, "listener_calls": list(LISTENER_CALLS),
             "shows_message": _shows_message(case, out),
+            **({"wrong_calls": len(H.WRONG_CALLS)} if "wiring" in case else {}),
             **({"other_calls": [list(x) for x in OTHER_CALLS]} if "regs" in case else {})}
 
 
@@ -379,15 +504,33 @@ def _listener_abs(l):
     return {"kind": l["kind"]}
 
 
+def _wiring_abs(w):
+    """what `Config._handler` holds, as far as `Config.handler` and `_do_handle` look at it: nothing / something that can be
+    called (it is called WITHOUT arguments and the result is the handler) / any other object (the handler itself); and
+    whether the object so obtained has the configured handler method"""
+    how = w["how"]
+    if how == "unset":
+        return {"stored": "unset", "exc": {"ki": False, "clikit": False, "tag": 98}}
+    if how == "factory_raises":
+        return {"stored": "factory", "raises": _exc_abs({"type": "RuntimeError"}, 97)}
+    has = how not in ("missing_method", "factory_none")
+    t = {"has_method": True} if has else {"has_method": False, "exc": {"ki": False, "clikit": False, "tag": 98}}
+    return dict(t, stored="object" if how in DIRECT + ("missing_method",) else "factory")
+
+
 def model_requests(case):
     ls = [_listener_abs(l) for l in case["listeners"]]
     o = case["outcome"]
     h = {"ret": _ret_abs(o["ret"])} if "ret" in o else {"raise": _exc_abs(o["raise"], 1)}
     rq = {"m": "c04.run", "debug": case["verbosity"] == 4, "listeners": ls, "handler": h, "render_ok": True}
+    if "wiring" in case:
+        rq["wiring"] = _wiring_abs(case["wiring"])
     # the same run with the listeners given as the REGISTRATION HISTORY (event, priority, listener) the harness performs
     # on the real configuration: the model orders them through the dispatcher model of C12
     rr = {"m": "c04.run_regs", "debug": rq["debug"], "handler": h, "render_ok": True,
           "regs": [{"event": EVENT_NO[ev], "prio": p, "listener": ls[i]} for (i, p, ev) in _regs_of(case)]}
+    if "wiring" in rq:
+        rr["wiring"] = rq["wiring"]
     r = _resolution(case["tokens"])
     if r is not None:
         rq["resolve_error"] = r
@@ -458,7 +601,12 @@ def oracle(case, obs):
             return "listener %d was called for event %r it is not registered for" % (i, name)
     if obs.get("shows_message") is False:
         return "the error report does not show the text of the exception"
-    expect_calls = 1 if (resolved and handled is None and failed is None) else 0
+    # a command without a usable handler (none set, a factory that fails or builds nothing, no method of the configured
+    # name): nothing can be invoked, the failure is an exception of the run like any other
+    broken = case.get("wiring", {}).get("how") in MISCONFIGURED
+    if obs.get("wrong_calls"):
+        return "a method that is not the configured handler method (%r) was called" % case["wiring"].get("method")
+    expect_calls = 1 if (resolved and handled is None and failed is None and not broken) else 0
     if obs["calls"] != expect_calls:
         return "the handler was invoked %d time(s), the statement requires %d" % (obs["calls"], expect_calls)
     if obs["calls"] == 1 and obs["call_args"] != [{"a": "x"}]:
@@ -469,6 +617,8 @@ def oracle(case, obs):
         exc, value = failed, None
     elif handled is not None:
         exc, value = None, handled
+    elif broken:
+        exc, value = {"type": "no usable handler"}, None
     elif "raise" in case["outcome"]:
         exc, value = case["outcome"]["raise"], None
     else:
@@ -498,7 +648,7 @@ def oracle(case, obs):
 
 def nontrivial_key(case, obs):
     import json
-    if case["outcome"] != {"ret": {"kind": "none"}} or "regs" in case:
+    if case["outcome"] != {"ret": {"kind": "none"}} or "regs" in case or "wiring" in case:
         return json.dumps(case, sort_keys=True)
     return None
 
@@ -507,6 +657,9 @@ def bucket(case, obs):
     o = case["outcome"]
     k = ("ret:" + o["ret"]["kind"]) if "ret" in o else ("raise:" + o["raise"]["type"])
     b = "%s|status=%s|reported=%s|calls=%d" % (k, obs["status"], obs["reported"], obs["calls"])
+    if "wiring" in case:
+        w = case["wiring"]
+        b += "|wired:%s%s" % (w["how"], ("." + w["method"]) if w.get("method") else "")
     if "regs" in case:
         pr = [p for (i, p, ev) in _regs_of(case) if ev == "pre-handle"]
         b += "|history:%s%s" % ("ties" if len(set(pr)) < len(pr) else "distinct",
@@ -515,6 +668,9 @@ def bucket(case, obs):
 
 
 def neighbours(case):
+    for w in WIRINGS:                                           # the same run with the handler wired another way
+        if w != case.get("wiring"):
+            yield dict(case, wiring=w)
     for o in OUTCOMES:
         c = dict(case)
         c["outcome"] = o
